@@ -1193,6 +1193,11 @@ pub mod verif_session_end {
         pub updates: Vec<Update>,
         pub live: Vec<(IpAddr, Asn)>,
         pub commands: Vec<&'static str>,
+        /// The unit's metrics (`BgpTcpInMetrics`, the gate's included) as
+        /// `/metrics` renders them, read after `process` returned. The
+        /// processor reports through a child of the unit's status reporter
+        /// (`add_child`), as `accept_config` of unit.rs sets it up.
+        pub metrics_prometheus: String,
     }
 
     /// The key under which the scripted session registers
@@ -1364,6 +1369,18 @@ pub mod verif_session_end {
         let target: Arc<dyn AnyDirectUpdate> = recorder.clone();
         let link = subscribe(&gate, &mut agent, &target).await;
 
+        // the unit's metrics and status reporter as `BgpTcpInRunner::new`
+        // builds them, the session's as a child of the unit's
+        let unit_metrics = Arc::new(
+            crate::units::bgp_tcp_in::metrics::BgpTcpInMetrics::new(&gate),
+        );
+        let unit_status_reporter =
+            BgpTcpInStatusReporter::new("verif", unit_metrics.clone());
+        let status_reporter = {
+            use crate::common::status_reporter::Chainable;
+            Arc::new(unit_status_reporter.add_child("1.2.3.4:179"))
+        };
+
         let n_events = events.len();
         let (cmds_tx, mut cmds_rx) = mpsc::channel(n_events + 16);
         let (pdu_out_tx, _pdu_out_rx) = mpsc::channel(16);
@@ -1396,7 +1413,7 @@ pub mod verif_session_end {
             unit_cfg,
             cmds_tx,
             pdu_out_tx,
-            Default::default(),
+            status_reporter,
             Default::default(),
             ingress_id,
         );
@@ -1439,12 +1456,19 @@ pub mod verif_session_end {
             live_sessions.lock().unwrap().keys().copied().collect();
         live.sort();
         let updates = std::mem::take(&mut *recorder.0.lock().unwrap());
+        let metrics_prometheus = {
+            use crate::metrics::{OutputFormat, Source, Target};
+            let mut target = Target::new(OutputFormat::Prometheus);
+            unit_metrics.append("verif", &mut target);
+            target.into_string()
+        };
         Outcome {
             finished,
             consumed: consumed.load(Ordering::SeqCst),
             updates,
             live,
             commands,
+            metrics_prometheus,
         }
     }
 }
